@@ -98,7 +98,7 @@ const ESCAPES: &[&str] = &[
 const FMT_FLAGS: &[&str] = &["", "-", "0", "+", " ", "#", "-0+ #"];
 const FMT_NUMS: &[&str] = &["", "0", "1", "12", "1023", "65534", "65535", "65536", "99999999999", "18446744073709551616"];
 const FMT_TYPES: &[&str] = &["d", "i", "s", "r", "f", "F", "e", "E", "g", "G", "x", "X", "o", "c", "%", "b", "n", ""];
-const FMT_VALUES: &[&str] = &["1", "-1.5", "1e300", "'a'", "170141183460469231731687303715884105727", "none", "[1]"];
+const FMT_VALUES: &[&str] = &["1", "-1.5", "1e300", "'a'", "170141183460469231731687303715884105727", "none", "[1]", "0.0001", "1e-300", "0.0", "123456789.125"];
 
 /// format strings as such: every string of pieces out of the two formatting mini-languages plus
 /// multi-byte characters in every position (keys, fill characters, conversions, stray text)
@@ -596,6 +596,52 @@ fn cfg_run(n: u64, cc: &mut ChildCtx) {
     }
 }
 
+/// seeds of the template-visible random generator (`{% set RAND_SEED = n %}`): the generator is a
+/// 64-bit xorshift, which is a bijection on its state, so the seeds that put a *boundary* state (all
+/// ones, just below, the top bit, one, the value whose float ratio is exactly 1.0) in front of the
+/// k-th draw can be computed by running it backwards; k = 0..=24, plus zero and a few small seeds,
+/// for every callable that draws
+const RAND_TARGETS: &[u64] = &[u64::MAX, u64::MAX - 1, u64::MAX - 1023, u64::MAX - 1024, 1 << 63, (1 << 63) - 1, 1, 2, 0x8000_0000_0000_0400];
+const RAND_BODIES: &[&str] = &[
+    "{{ lipsum(1) }}", "{{ lipsum(2, html=true, min=3, max=9) }}", "{{ [1, 2, 3]|random }}", "{{ 'abc'|random }}{{ {'a': 1}|random }}", "{{ randrange(3) }}{{ randrange(-5, 5) }}{{ randrange(0, 1) }}",
+    "{% for i in range(40) %}{{ [1, 2]|random }}{{ randrange(2) }}{% endfor %}", "{{ range(1000)|random }}{{ []|random }}",
+];
+const RAND_STEPS: u64 = 25;
+
+fn xorshift_back(mut x: u64) -> u64 {
+    // undo x ^= x << 17; x ^= x >> 7; x ^= x << 13 (the forward order is 13, 7, 17)
+    x ^= x << 17 ^ x << 34 ^ x << 51;
+    let mut y = x;
+    let mut sh = 7;
+    while sh < 64 {
+        y ^= x >> sh;
+        sh += 7;
+    }
+    x = y;
+    x ^= x << 13 ^ x << 26 ^ x << 39 ^ x << 52;
+    x
+}
+
+fn rand_total() -> u64 {
+    (RAND_TARGETS.len() as u64 * RAND_STEPS + 6) * RAND_BODIES.len() as u64
+}
+
+fn rand_case(n: u64) -> String {
+    let body = RAND_BODIES[(n as usize) % RAND_BODIES.len()];
+    let k = n / RAND_BODIES.len() as u64;
+    let nt = RAND_TARGETS.len() as u64 * RAND_STEPS;
+    let seed = if k < nt {
+        let mut x = RAND_TARGETS[(k / RAND_STEPS) as usize];
+        for _ in 0..(k % RAND_STEPS) {
+            x = xorshift_back(x);
+        }
+        x
+    } else {
+        [0u64, 1, 2, 42, 1 << 32, 0x9e37_79b9_7f4a_7c15][(k - nt) as usize]
+    };
+    format!("{{% set RAND_SEED = {} %}}{}", seed, body)
+}
+
 const DEPTH_SHAPES: &[&str] = &[
     "neg", "not", "elif", "filter_chain", "add_const", "add_var", "concat", "attr_chain", "call_chain", "index_chain", "nested_list", "nested_paren", "nested_map", "nested_if", "nested_for",
     "nested_with", "nested_macro", "assign_parens", "is_chain", "ternary_chain", "deep_data_list", "list_append_loop", "namespace_self", "nested_filter_block", "nested_set_block", "compare_chain", "and_chain", "string_escape", "long_ident",
@@ -781,6 +827,7 @@ fn run_case(family: &str, n: u64, cc: &mut ChildCtx) {
             let src = CALLABLES.with(|c| kwargs_case(c, n));
             exercise_template(env, &src, &ctx, cc);
         }
+        "rand_seeds" => exercise_template(env, &rand_case(n), &ctx, cc),
         "error_sinks" => sink_case(env, n, cc),
         "huge_lines" => exercise_template(env, &huge_case(n), &ctx, cc),
         "syntax_configs" => cfg_run(n, cc),
@@ -843,6 +890,7 @@ fn describe(family: &str, n: u64) -> String {
         "format_strings" => format!("format string {:?} through |format (positional, mapping) and str.format", ranked_string(n, FMT_PIECES)),
         "compose" => format!("{:?}", compose_case(n)),
         "kwargs" => kwargs_case(&callables(), n),
+        "rand_seeds" => rand_case(n),
         "error_sinks" => format!("error of {:?} formatted into sinks failing after k bytes", SINK_TEMPLATES[(n as usize) % SINK_TEMPLATES.len()]),
         "huge_lines" => format!("{} empty lines then {:?}", HUGE_LINES[(n as usize) / HUGE_FAULTS.len()], HUGE_FAULTS[(n as usize) % HUGE_FAULTS.len()]),
         "syntax_configs" => {
@@ -972,6 +1020,8 @@ pub fn main(args: Args) -> i32 {
     shards.extend(crash::shards_for("kwargs", nkw, 20_000, "2m", "release"));
     acc.count("cases_kwargs", nkw);
     shards.extend(crash::shards_for("error_sinks", SINK_TEMPLATES.len() as u64, 1, "2m", "release"));
+    shards.extend(crash::shards_for("rand_seeds", rand_total(), 200, "2m", "release"));
+    acc.count("cases_rand_seeds", rand_total());
     let nhuge = (HUGE_FAULTS.len() * HUGE_LINES.len()) as u64;
     shards.extend(crash::shards_for("huge_lines", nhuge, 4, "2m", "release"));
     shards.extend(crash::shards_for("syntax_configs", cfg_total(), 500, "2m", "release"));
